@@ -292,8 +292,15 @@ func (r *protoRun) exec(ss []*cstmt) int {
 				r.mayThrow = true // taken only for values the older type cannot hold
 				continue
 			}
-			if strings.HasSuffix(s.text, ".has_value()") && isIdent(s.text[:len(s.text)-len(".has_value()")]) && s.els == nil {
-				// conversion of the contained value when there is one: run it on the generic element, like a loop body
+			if strings.HasSuffix(s.text, ".has_value()") && isIdent(s.text[:len(s.text)-len(".has_value()")]) {
+				// conversion of the contained value when there is one: run it on the generic element, like a loop body;
+				// the only thing the null branch may do is give targets their zero value
+				for _, e := range s.els {
+					if (e.kind != "" && e.kind != "simple") || !strings.HasSuffix(e.text, " = {}") || !isIdent(baseVar(e.text[:len(e.text)-len(" = {}")])) {
+						r.unknown = "null branch of a conversion: " + e.text
+						return flowThrow
+					}
+				}
 				if f := r.exec(s.body); f != flowNext {
 					return f
 				}
